@@ -231,6 +231,7 @@ func (s *SockRec) Count(name string) int {
 // Resp records everything about one request/response exchange.
 type Resp struct {
 	Desc        string
+	Req         *http.Request // the request as the handler received it
 	Code        int
 	Hdr         http.Header
 	Body        []byte
@@ -364,6 +365,7 @@ func (w *World) Request(method, target string, o ReqOpt) *Resp {
 	}
 	r.done = ctx.Done()
 	req = req.WithContext(ctx)
+	r.Req = req
 	var writer http.ResponseWriter = rw{r}
 	if o.Hijackable {
 		writer = rwHijack{rw{r}}
